@@ -48,6 +48,11 @@ def versions():
 def codegen(pkg, feature_args, log_path, need=()):
     """-> (ok, {pretty_name: metadata}, wall_s)"""
     cmd = ["cargo", "kani", "-p", pkg, "-Z", "stubbing", "--only-codegen", "--no-assertion-reach-checks"] + list(feature_args)
+    if RESTRICT_VTABLE:
+        # Kani's vtable restriction: every `dyn Trait` call site is limited to the methods of the trait's implementors instead of
+        # every function of matching signature (CBMC's default function-pointer removal).  The restriction file is applied by
+        # verify_one exactly as kani-driver does it.
+        cmd[2:2] = ["-Z", "restrict-vtable"]
     env = dict(os.environ)
     env.update(KANI_ENV)
     t0 = time.time()
@@ -234,6 +239,7 @@ def recursion_limits(meta, k_override=None):
     return out
 
 
+RESTRICT_VTABLE = not os.environ.get("VERIF_NO_RESTRICT")
 FS_ARRAY_DEFAULT = 1024     # see ws.REPR_PATCH: heap objects larger than CBMC's default 64 bytes lose constant propagation
 
 
@@ -248,6 +254,29 @@ def verify_one(meta, unwind, solver, timeout, rss_gb, keep_log_dir, rec_limit=No
     steps = [
         ["goto-cc", sym, KANI_LIB_C, "-o", out],
         ["goto-cc", out, "--function", mangled, "-o", out],
+    ]
+    restr = sym[:-len(".symtab.out")] + ".restrictions.json"
+    if RESTRICT_VTABLE and os.path.exists(restr):
+        try:
+            with open(restr) as f:
+                rj = json.load(f)
+            poss = {}
+            for e in rj.get("possible_methods", []):
+                tm = e["trait_method"]
+                poss.setdefault((tm["trait_name"], tm["vtable_idx"]), []).extend(e["possibilities"])
+            linked = {}
+            for cs in rj.get("call_sites", []):
+                tm = cs["trait_method"]
+                linked["%s.%s" % (cs["function_name"], cs["label"])] = poss.get((tm["trait_name"], tm["vtable_idx"]), [])
+            lp = sym[:-len(".symtab.out")] + ".linked-restrictions.json"
+            with open(lp, "w") as f:
+                json.dump(linked, f)
+            steps.append(["goto-instrument", "--function-pointer-restrictions-file", lp, out, out])
+            res["vtable_call_sites_restricted"] = len(linked)
+        except Exception as e:
+            res["reason"] = "could not read %s: %r" % (restr, e)
+            return res
+    steps += [
         ["goto-instrument", "--add-library", "--no-malloc-may-fail", out, out],
         ["goto-instrument", "--generate-function-body-options", "assert-false-assume-false", "--generate-function-body", ".*",
          "--drop-unused-functions", out, out],
